@@ -49,7 +49,7 @@ def swarm(g, opts):
         cfg["p_raise"] = g.choice([0, 0.1, 0.3, 0.6])
         cfg["p_alloc"] = g.choice([0, 0.1, 0.3, 0.6])
         cfg["p_nonfinite"] = g.choice([0, 0, 0.1, 0.3])
-        cfg["p_pbar_fail"] = g.choice([0, 0.1, 0.3])
+        cfg["p_pbar_fail"] = g.choice([0, 0.3, 0.6])
         cfg["p_clock"] = g.choice([0, 0.1, 0.3])
         cfg["alloc_minb"] = g.choice([0, 0, 64, 1024])
         cfg["alloc_pos"] = g.choice(["uniform", "uniform", "first", "last"])
